@@ -236,9 +236,9 @@ pub fn corrupt(rng: &mut Rng, cfg: PCfg, doc: &Doc) -> Option<Corruption> {
             }
             // binary delta larger than its reference
             (Role::Binary, _) if t.what == "delta0" => {
-                // code of this gate: recover from the items is awkward; a 10-byte maximal varint exceeds any code
-                let new = vec![0xff, 0xff, 0xff, 0xff, 0xff, 0xff, 0xff, 0xff, 0x7f];
-                return mk(new, "delta0 replaced by a 63-bit value (larger than any gate code here)".into());
+                                // 2^64-1 in ten 7-bit groups: larger than every possible gate code
+                let new = vec![0xff, 0xff, 0xff, 0xff, 0xff, 0xff, 0xff, 0xff, 0xff, 0x01];
+                return mk(new, "delta0 replaced by 2^64-1 (larger than any gate code)".into());
             }
             _ => continue,
         }
